@@ -8,6 +8,7 @@ CONSTANTS
   HWM = 1000000000
   Slack = 1500
   RestoreSlack = 500
+  AnswerSlack = 300
 CONSTRAINT HighWater
 POSTCONDITION TraceAccepted
 CHECK_DEADLOCK FALSE
